@@ -51,7 +51,8 @@ MANIFEST = {
                   "bytes with a correct size field on both paths and is not changed), C02_senc_zero_pinned_refuted (K1/K2/K4 "
                   "before the repair), C02_senc_parsed (after a successful second phase with any perSampleIVSize byte: never "
                   "more than Size() bytes, and exactly Size() IF AND ONLY IF senc_parse_exact: sub-sample flag set or count * "
-                  "ivsize = len(data)), C02_senc_parse_trailing_refuted (known C02-K5). Progressive files / box-tree mode: "
+                  "ivsize = len(data)), C02_senc_parsed_exact (since 4cf4f8b the guard always holds: every decoded and parsed box "
+                  "writes exactly Size() bytes), C02_senc_parse_trailing_refuted (C02-K5, the text before 4cf4f8b). Progressive files / box-tree mode: "
                   "C02_file_progressive (one box per child in order, only mdat.LargeSize changes - moov with stco / co64 is "
                   "written as it is -, every box has the length Size() reports afterwards, the file position of every mdat "
                   "payload computed from Size() / HeaderSize() is its position in the output, a settled file is not changed). "
@@ -71,7 +72,7 @@ MANIFEST = {
                   "not observable in the model); sized-writer histories take Size() first (an operation of its own). SencBox is "
                   "modelled on its own (coq/c02/C02AggSencModel.v, its own correspondence streams: built, poked, decoded from "
                   "generated bytes by both decoders and parsed); inside a traf it is an opaque box, which C02_senc_obox (built) "
-                  "and C02_senc_decoded / C02_senc_parsed (decoded; the latter under senc_parse_exact) justify; the state after "
+                  "and C02_senc_decoded / C02_senc_parsed_exact (decoded, parsed) justify; the state after "
                   "a FAILED Encode of a fragment holding an inconsistent senc is not modelled. Chunk offsets are not interpreted: "
                   "C02_file_progressive speaks about positions. C12's abstraction is reached through abs_file (kind and Size() "
                   "per box).",
